@@ -38,7 +38,7 @@ func layoutData(specs []*corpus.Spec) (string, [][]string) {
 		return "{" + strings.Join(p, ", ") + "}"
 	}
 	sb.WriteString("package parser\n\n")
-	var pieces, seps, rules, toks, precs, starts, codes, unions, rests, ends []string
+	var pieces, seps, rules, toks, precs, starts, codes, unions, rests, ends, spans []string
 	var allPieces [][]string
 	for _, s := range specs {
 		ps, ss := s.Pieces()
@@ -101,6 +101,20 @@ func layoutData(specs []*corpus.Spec) (string, [][]string) {
 			}
 		}
 		ends = append(ends, "{"+strings.Join(ge, ", ")+"}")
+		// rule k spans the pieces from its left-hand side or '|' to its action
+		var sp []string
+		start := -1
+		for i, p := range ps {
+			if p == "%%" && start < 0 {
+				start = i + 1
+				continue
+			}
+			if start >= 0 && strings.HasPrefix(p, "{ verifReduce(") {
+				sp = append(sp, fmt.Sprintf("{%d, %d}", start, i))
+				start = i + 1
+			}
+		}
+		spans = append(spans, "{"+strings.Join(sp, ", ")+"}")
 	}
 	w := func(name, typ string, xs []string) {
 		sb.WriteString("var " + name + " = " + typ + "{\n")
@@ -119,6 +133,7 @@ func layoutData(specs []*corpus.Spec) (string, [][]string) {
 	w("verifExpUnion", "[]string", unions)
 	w("verifExpRest", "[]string", rests)
 	w("verifGroupEnds", "[][]int", ends)
+	w("verifRuleSpan", "[][][2]int", spans)
 	return sb.String(), allPieces
 }
 
